@@ -74,7 +74,17 @@ func VerifyWildcardAnswerForZoneWithWork(
 		// Labels >= owner label count means an exact (non-wildcard) owner.
 		// A malformed over-count is rejected by RRSIG.Verify itself, so it
 		// never reaches here with ok=true; treat it as non-wildcard.
-		if int(sig.Labels) >= len(owner.labels) {
+		//
+		// The signer does not count a wildcard owner's own leading "*" label
+		// (RFC 4034 §3.1.3), so the RRset stored at "*.example." carries
+		// Labels=1 and is no expansion when that very name was asked for:
+		// the name RFC 4035 §5.3.2 rebuilds from the Labels field is the
+		// owner itself. Same rule as wildcardExpanded.
+		ownerLabels := len(owner.labels)
+		if ownerLabels > 0 && len(owner.labels[0]) == 1 && owner.labels[0][0] == '*' {
+			ownerLabels--
+		}
+		if int(sig.Labels) >= ownerLabels {
 			continue
 		}
 
